@@ -849,9 +849,9 @@ class System:
             vi, ostate = self._fwd_prop(v, i, phase, state)
             ii = self._back_prop(vi, i, phase, state)
             iters += 1
-            if np.allclose(np.array(v), np.array(vi), rtol=vtol) and np.allclose(
-                np.array(i), np.array(ii), rtol=itol
-            ):
+            if np.allclose(
+                np.array(v), np.array(vi), rtol=vtol, atol=0.0
+            ) and np.allclose(np.array(i), np.array(ii), rtol=itol, atol=0.0):
                 if not quiet:
                     pname = ""
                     if phase != "":
